@@ -788,7 +788,9 @@ func refClass(err string) string {
 		return "host-crash"
 	case strings.Contains(err, "deadlock"):
 		return "deadlock"
-	case strings.Contains(err, "runaway"), strings.Contains(err, "deadline"):
+	case strings.Contains(err, "runaway"), strings.Contains(err, "deadline"), strings.Contains(err, "step budget"):
+		// (a fault-free run of a workload that is known to end after a few thousand steps used up the
+		// simulator's 50 million steps per task: it does not end)
 		return "runaway"
 	case strings.Contains(err, "infra"):
 		return "infra"
